@@ -155,10 +155,10 @@ fn main() {
             } else {
                 let b = 8 + (cli.seed as usize * 7) % 24;
                 let fixed = vec![
-                    props_sock2::RealShutdown { tcp: true, addr: 1, burst: b, hold: true },
-                    props_sock2::RealShutdown { tcp: false, addr: 0, burst: 24, hold: cli.seed % 2 == 0 },
-                    props_sock2::RealShutdown { tcp: true, addr: 2, burst: 12, hold: false },
-                    props_sock2::RealShutdown { tcp: true, addr: if cli.seed % 2 == 0 { 3 } else { 0 }, burst: b + 5, hold: true },
+                    props_sock2::RealShutdown { tcp: true, addr: 1, burst: b, hold: true, queued_at_drop: 14 },
+                    props_sock2::RealShutdown { tcp: false, addr: 0, burst: 24, hold: cli.seed % 2 == 0, queued_at_drop: 14 },
+                    props_sock2::RealShutdown { tcp: true, addr: 2, burst: 12, hold: false, queued_at_drop: 0 },
+                    props_sock2::RealShutdown { tcp: true, addr: if cli.seed % 2 == 0 { 3 } else { 0 }, burst: b + 5, hold: true, queued_at_drop: 0 },
                 ];
                 make_list_part("real-time", "CONV/sock", fixed, false, |_| (), |w, c| props_sock2::c20_real_test(w, c))
             };
